@@ -152,3 +152,15 @@ Inductive unframed (d : bytes) : Prop :=
 | uf_truncated : (16 <= length d)%nat -> raw_len d <= 1024 -> N.of_nat (length d) < raw_span d -> unframed d
 | uf_trailer : (16 <= length d)%nat -> raw_len d <= 1024 -> raw_span d <= N.of_nat (length d) ->
     raw_trailer d <> raw_span d -> unframed d.
+
+(* ---------- a concrete well-formed buffer (non-vacuity example of Props/C15.v) ---------- *)
+Definition example_table : list tstring :=
+  [ mkTString 1200042 (L "first %d") (L "a.c(12)");
+    mkTString 3400042 (L "value 0x%04X and %u") (L "b.c(34)");
+    mkTString 5600042 (L "last partial %c") (L "c.c(56)") ].
+Definition example_buffer : abuffer :=
+  mkABuffer 1 32 0 66 (L "POWR" ++ repeat 0 8) [0; 0; 0; 0] 132 2 0
+    [ mkAEntry 3661 1 18004 3400042 34 [0; 0; 0; 171; 0; 0; 0; 7] [];
+      mkAEntry 65535 2 18004 7800042 78 [65; 66; 67] [255];
+      mkAEntry 0 3 18004 99 1 [] [];
+      mkAEntry 10 4 17988 1200042 12 [1; 2; 3; 4; 5] [0; 0; 0] ].
